@@ -388,7 +388,7 @@ def finalize_enums2():
                     c.enum_params[p] = [vals[0], vals[-1]][: int(n)]
                 else:
                     c.enum_params[p] = enum_values(v)
-        if c.qualname.endswith(".__init__") and "self" in c.enum_params:
+        if c.qualname.endswith(".__init__") and c.enum_params.get("self") == [None]:
             c.enum_params["self"] = [ObjUnderConstruction("CG")]
 
 
